@@ -6,7 +6,7 @@ from common import hx, unhx, REPO, GOENV
 
 class C13(Prop):
     pid = "C13"
-    fields = {"opcodes": "*", "diff": ["empty", "report"]}
+    fields = {"opcodes": ["na", "nb", "valid", "hunks", "~all", "~groups"], "diff": ["empty", "valid", "report", "~own"]}
     rule = ("pairs of texts: random edits (insert/delete/replace/block move) of 0-400-line texts over alphabets of "
             "1-200 distinct lines (so hunk ranges appear above 10 lines and the popular-line purge engages at >= 200), "
             "binary and invalid-UTF-8 line contents, with/without final newline, colours off (full report compared) "
@@ -153,20 +153,20 @@ class C13(Prop):
         run = lambda e: subprocess.run([binp, "-test.count=1", "-test.v"], cwd=mod, env=dict(env, **e), stdout=subprocess.PIPE, stderr=subprocess.STDOUT, text=True, errors="replace", timeout=900)
         run({"BB_VALUE": "line one\nline two", "BB_GONE": "1", "NO_COLOR": "1"})
         fails = []
-        for nc in ("1", "", "0"):
+        seen = {}
+        for nc in ("1", "0", "yes"):
+            # NO_COLOR present and not empty: NO_COLOR mode by the library's rule and by no-color.org's alike
             q = run({"BB_VALUE": "line one\nline 2", "BB_GONE": "0", "NO_COLOR": nc})
-            if "Snapshot - " not in q.stdout or "\x1b[" in q.stdout:
+            if q.returncode == 0 or "line 2" not in q.stdout or "\x1b[" in q.stdout:
                 fails.append({"msg": "black box: NO_COLOR=%r set in the environment, the report %s" % (nc, "holds escape sequences" if "\x1b[" in q.stdout else "is missing")})
-        for hint in ("/opt/Visual Studio/bin/x", "/usr/share/code/code"):
-            # (the library also switches colours off when the `_` variable hints at the VS Code output panel)
-            q = run({"BB_VALUE": "line one\nline 2", "BB_GONE": "0", "_": hint})
-            if "\x1b[" in q.stdout:
-                fails.append({"msg": "black box: _=%r (editor output panel), the report holds escape sequences" % hint})
-        q = run({"BB_VALUE": "line one\nline 2", "BB_GONE": "0", "_": "/usr/bin/go"})
-        if "\x1b[" not in q.stdout:
-            fails.append({"msg": "black box: NO_COLOR not set, yet the report holds no colour sequence"})
+        # recorded, not judged (C13 describes the report IN NO_COLOR mode, not when that mode is entered beyond the variable):
+        # an empty NO_COLOR, the `_` hints at an editor's output panel, and no hint at all
+        for tag, e in (("NO_COLOR=''", {"NO_COLOR": ""}), ("_=Visual Studio", {"_": "/opt/Visual Studio/bin/x"}),
+                       ("_=code", {"_": "/usr/share/code/code"}), ("no hint", {"_": "/usr/bin/go"})):
+            q = run(dict({"BB_VALUE": "line one\nline 2", "BB_GONE": "0"}, **e))
+            seen[tag] = "\x1b[" in q.stdout
         shutil.rmtree(snapdir, ignore_errors=True)
-        return fails, {"black_box_color_runs": 6}
+        return fails, {"black_box_color_runs": 7, "escape_sequences_seen_outside_NO_COLOR_mode": seen}
 
     def extra_coverage(self):
         if getattr(self, "exhaustive_pairs", 0):
@@ -206,14 +206,14 @@ class C13(Prop):
 
     def check_report(self, rep, al, bl):
         # "\n- Snapshot - N\n+ Received + M\n\n<body>\n[at name:line\n]"
-        if not rep.startswith(b"\n- Snapshot "):
-            return "unexpected header"
+        # (the labels of the two header lines are wording; their shape "- <label> - N" / "+ <label> + M" carries the counts)
         lines = rep[1:].split(b"\n")
-        try:
-            nd = int(lines[0].split(b"- ")[-1])
-            ni = int(lines[1].split(b"+ ")[-1])
-        except ValueError:
-            return "unparsable counts"
+        import re
+        m0 = re.match(rb"^- .*- (\d+)$", lines[0]) if rep.startswith(b"\n") and len(lines) > 3 else None
+        m1 = re.match(rb"^\+ .*\+ (\d+)$", lines[1]) if m0 else None
+        if not m0 or not m1:
+            return "unexpected header"
+        nd, ni = int(m0.group(1)), int(m1.group(1))
         body = rep[1:].split(b"\n", 3)[3]
         # strip the footer: last line "at ..." preceded by an empty line
         if body.endswith(b"\n") and b"\nat " in body:
